@@ -372,7 +372,9 @@ let run_rev t : string * string =
   let rt = next_int t in let head = next_hex t in let payload = next_hex t in
   let profile = next_hex t in let date = next_hex t in let _via = next_int t in
   (* the original may declare its payload digest itself, correct but in its own spelling *)
-  let spelling = (match t.rest with [] -> 0 | _ -> next_int t) in
+  let spelling0 = (match t.rest with [] -> 0 | _ -> next_int t) in
+  let spelling = spelling0 mod 10 in
+  let truncated = if spelling0 >= 10 then [("WARC-Truncated", bytes_of_str "time")] else [] in
   let sum = hash_oracle SHA1 payload in
   let declared = match spelling with
     | 0 -> []
@@ -381,7 +383,7 @@ let run_rev t : string * string =
     | _ -> [("WARC-Payload-Digest", bytes_of_str ("SHA-1:" ^ str_of_bytes (b32_encode sum)))] in
   let typ = if rt = 2 then "response" else "request" in
   let hs0 = m_set field_table uni_lower (bytes_of_str "WARC-Type") (bytes_of_str typ) [] in
-  let hs = add_all hs0 ([("WARC-Date", date); ("Content-Type", bytes_of_str "application/http"); ("WARC-Target-URI", bytes_of_str "http://example.com/x")] @ declared) in
+  let hs = add_all hs0 ([("WARC-Date", date); ("Content-Type", bytes_of_str "application/http"); ("WARC-Target-URI", bytes_of_str "http://example.com/x")] @ declared @ truncated) in
   match fst (m_build o (n_of_int vid) (n_of_int rt) hs (head @ payload) (bytes_of_str "urn:uuid:11111111-2222-3333-4444-555555555555")) with
   | Err _ -> ("BUILDERR", "-")
   | Ok (orig, _) ->
